@@ -1091,7 +1091,51 @@ impl<E: ElemT> TableWorld<E> {
         Ok(())
     }
 
+    /// try_reserve on fresh tables of element types so large that a handful of buckets approaches isize::MAX: the
+    /// call must fail, and if it asks the allocator at all, then for a valid layout (size rounded up to the
+    /// alignment at most isize::MAX; the allocator seam checks that and refuses anything above its ceiling).
+    fn op_try_reserve_giant(&mut self, op: &Op) -> VResult {
+        use hashbrown::HashTable;
+        fn one<G: 'static>(n: usize) -> (bool, Option<(usize, usize)>) {
+            let mut t: HashTable<G, SimAlloc> = HashTable::new_in(SimAlloc);
+            match t.try_reserve(n, |_| 0) {
+                Ok(()) => (true, None),
+                Err(hashbrown::TryReserveError::CapacityOverflow) => (false, None),
+                Err(hashbrown::TryReserveError::AllocError { layout }) => (false, Some((layout.size(), layout.align()))),
+            }
+        }
+        let n = 1 + (op.a as u64 % 64) as usize;
+        let which = op.b.rem_euclid(6);
+        sim().probe(Probe::TryReserveGiant);
+        let out = self.ctx.call(op, || match which {
+            0 => one::<[u32; (1 << 58) - 1]>(n),
+            1 => one::<[u8; (1 << 60) - 3]>(n),
+            2 => one::<[u64; (1 << 57) - 1]>(n),
+            3 => one::<[u16; (1 << 59) - 1]>(n),
+            4 => one::<[u8; (1 << 59) + 5]>(n),
+            _ => one::<[u64; (1 << 56) + 1]>(n),
+        });
+        let (ok, layout) = match out {
+            Out::Ok(r) => r,
+            Out::Panic(msg) => vio!(self, "tryreserve/panic", "try_reserve({n}) for a giant element type ({which}) panicked: {msg}"),
+            _ => vio!(self, "tryreserve/panic", "try_reserve({n}) for a giant element type ({which}) did not return"),
+        };
+        self.ctx.drain_callback_violations()?;
+        if ok {
+            vio!(self, "tryreserve/ok-impossible", "try_reserve({n}) for an element type of more than 2^59 bytes returned Ok");
+        }
+        if let Some(l) = layout {
+            if self.ctx.last_refused_layout != Some(l) {
+                vio!(self, "tryreserve/wrong-layout", "AllocError carries layout {:?}, the allocator refused {:?}", l, self.ctx.last_refused_layout);
+            }
+        }
+        Ok(())
+    }
+
     fn op_try_reserve(&mut self, si: usize, op: &Op) -> VResult {
+        if op.c == 9 {
+            return self.op_try_reserve_giant(op);
+        }
         let n = op.a as u64 as usize;
         let fc = self.fctx(si, op);
         let (len, cap0, size0) = {
